@@ -223,7 +223,66 @@ def history_inplace(acc, spec, seed, j):
         acc.held(cls, key)
 
 
+class _Level(int):
+    pass
+
+
+class _Ratio(float):
+    pass
+
+
+class _Proto(str):
+    pass
+
+
+def subclass_values(acc, seed, j):
+    """Attribute values that are instances of SUBCLASSES of int / float / str (enum members, user types) are int /
+    float / str values: the export is the export of the same model with the plain values."""
+    import enum
+    from flamapy.metamodels.fm_metamodel.transformations import ClaferWriter
+
+    class Prio(enum.IntEnum):
+        LOW = 1
+        HIGH = 3
+    r = rand.rng(seed, "c11subclass", j)
+    spec = rand.rand_model(r, r.randint(4, 8), n_ctcs=1, ctc_depth=1, group_kinds=("alternative", "or"), multi_rel=False)
+    if not in_fragment(spec):
+        return
+    fs = list(S.features(spec["root"]))
+    plain = [("priority", 3), ("ratio", 2.5), ("protocol", "mqtt"), ("level", 7)]
+    for k, (nm, v) in enumerate(plain):
+        fs[k % len(fs)].setdefault("attrs", []).append({"name": nm, "value": v})
+    special = {"priority": Prio.HIGH, "ratio": _Ratio(2.5), "protocol": _Proto("mqtt"), "level": _Level(7)}
+    m_plain, m_sub = S.build(spec), S.build(spec)
+    stack = [m_sub.root]
+    while stack:
+        f = stack.pop()
+        for a in f.get_attributes():
+            if a.name in special:
+                a.default_value = special[a.name]
+        for rel in f.relations:
+            stack.extend(rel.children)
+    acc.programs += 1
+    key = S.digest(["c11-subclass", spec])
+    try:
+        t_plain = ClaferWriter(None, m_plain).transform()
+        t_sub = ClaferWriter(None, m_sub).transform()
+    except Exception as e:  # noqa: BLE001
+        acc.fail("attr:subclass-values", "no-exception", "clafer", [], f"raises:{type(e).__name__}", str(e)[:200], {"source": "subclass", "spec": spec, "tags": []}, key)
+        return
+    acc.disagreements_checked += 1
+    if t_plain != t_sub:
+        acc.fail("attr:subclass-values", "names-every-attribute", "clafer", [], "attributes-differ",
+                 f"values of int/float/str subclasses are exported differently from the plain values: {S.first_diff(t_plain.splitlines(), t_sub.splitlines())}"[:300],
+                 {"source": "subclass", "spec": spec, "tags": []}, key)
+    else:
+        acc.held("attr:subclass-values", key)
+
+
 def run_shard(desc, acc):
+    for j in range(16):
+        if j % desc["nshards"] == desc["shard"]:
+            subclass_values(acc, desc["seed"], j)
     for j, (source, spec, tags) in enumerate(cases(desc)):
         run_case(acc, source, spec, tags)
         if source == "random" or j % 40 == 0:
